@@ -25,7 +25,7 @@ Decides:
 """
 import ast
 
-from ..source import norm, short, qualname
+from ..source import class_methods, norm, short, qualname
 from ..flow import own_nodes, atoms
 from ..intervals import bounds
 from ..algebra import lin, add, scale, parse
@@ -180,6 +180,29 @@ def check(ctx, rep):
     dd = [r for r, c in ctx.raises_in(ob) if c == 'DUPLICATE_DEFINITION']
     rep.ob('option-base.duplicate', 'OPTION BASE with a different base in force raises Duplicate definition',
            len(dd) == 1 and fl.knows(dd[0], 'self._base is not None and base != self._base', True), '', ctx.where(ob))
+    # ---- the OPTION BASE setting is part of "every OPTION BASE setting": an explicit one
+    # is forgotten only by CLEAR/NEW/RUN (Arrays.clear), never by ERASE
+    cls = ctx.cls(A + ':Arrays')
+    resets = []
+    for m in class_methods(cls).values():
+        if m.name in ('__init__', 'clear', 'clear_base'):
+            continue
+        mfl = None
+        for n in own_nodes(m):
+            hit = (isinstance(n, ast.Call) and norm(n.func) == 'self.clear_base') or (
+                isinstance(n, ast.Assign) and norm(n.targets[0]) == 'self._base' and isinstance(n.value, ast.Constant) and n.value.value is None)
+            if hit:
+                mfl = mfl or ctx.flow(m)
+                resets.append(m.name)
+                rep.ob('option-base.explicit-survives', '%s unsets the array base only when DIM had set it implicitly' % m.name,
+                       mfl.knows(n, 'self._base_set_by_dim', True), 'an explicit OPTION BASE is forgotten here: later arrays silently get the other lower bound', ctx.where(n))
+    rep.floor('option-base.explicit-survives', len(resets), 1, 'conditional base resets (ERASE of the last array)')
+    setters = [(m.name, n) for m in class_methods(cls).values() for n in own_nodes(m)
+               if isinstance(n, ast.Assign) and norm(n.targets[0]) == 'self._base_set_by_dim' and isinstance(n.value, ast.Constant) and n.value.value is True]
+    rep.ob('option-base.implicit-flag', 'the implicit-base flag is set only where DIM finds no base in force',
+           len(setters) == 1 and setters[0][0] == 'allocate' and isinstance(setters[0][1]._parent, ast.If)
+           and setters[0][1] in setters[0][1]._parent.body and norm(setters[0][1]._parent.test) == 'self._base is None',
+           repr([x[0] for x in setters]), ctx.where(al))
 
 
 def _checked_under_nonempty(fn, callnode):
@@ -224,6 +247,8 @@ def variants(ctx):
            in_fn('Arrays.allocate', lambda fn: mu.remove_stmt(fn, mu.stmt_has('name in self._dims', ast.If))), expect='allocate'),
         Va('erase-keeps-dims', 'break', A,
            in_fn('Arrays.erase_', lambda fn: mu.remove_stmt(fn, mu.text_is('del self._dims[name]'))), expect='erase.tables'),
+        Va('erase-forgets-explicit-base', 'break', A,
+           in_fn('Arrays.erase_', lambda fn: mu.replace_expr(fn, mu.text_is('not self._dims and self._base_set_by_dim'), 'not self._dims')), expect='option-base.explicit-survives'),
         Va('loop-var-renamed', 'neutral', A, in_fn('Arrays.check_dim', lambda fn: mu.rename_local(fn, 'i', 'sub'))),
     ]
 
